@@ -379,6 +379,8 @@ def monitor (d : ToolD) (ci : CallIn) (o : Obs) : Option String :=
     some "C16: handler_sees_defaulted_args: the handler observed something other than the defaulted arguments"
   else if io.inv == "0" && (o.res != "toolerr" || o.content == "-" || o.sc != "-") then
     some "C16: invalid_gives_tool_error_without_invocation: invalid arguments did not produce an isError result with content"
+  else if (match (ci.h .null).out with | .nilPtr => true | _ => false) && (o.res != io.res || o.sc != io.sc) then
+    some "C16: nil_pointer_output_uses_zero_value: a nil pointer output was not treated as the zero value of its element type"
   else if o.res != io.res then
     if io.res == "rpcerr" then some "C16: invalid_output_is_error_not_result: output violating the output schema was returned as a result"
     else if io.res == "ok" then some "C16: structured_valid: schema-valid output was not returned as a successful result"
